@@ -9,6 +9,7 @@ CONSTANTS
   EmptyReq = "empty"
   ModeReq = "mode"
   Variant = "fixed"
+  WithExp = FALSE
   TrackHeld = FALSE
   ReturnsView = FALSE
 INVARIANT Purity
